@@ -650,7 +650,7 @@ impl endpoint::Session for ListenerSession {
         self.session.on_outgoing_disposition(disposition)
     }
 
-    fn on_outgoing_detach(&mut self, detach: Detach) -> SessionFrame {
+    fn on_outgoing_detach(&mut self, detach: Detach) -> Option<SessionFrame> {
         self.session.on_outgoing_detach(detach)
     }
 }
